@@ -140,12 +140,13 @@ func runValDom(c *core.Ctx) {
 	// since / until / limit >= 0
 	for _, fld := range []string{"Since", "Until", "Limit"} {
 		ap := "recv." + fld
-		fr := an.ConstFrame(ap)
+		// with the field present — wherever its presence is tested (Valid or a predicate helper)
+		fr := an.ConstFrame(ap).AssumePresent(ap)
 		var opq []an.Cond
-		t, _, n, ok := fr.FuncBoolMeaning(filValid, 0, nonNilOnPath(ap), &opq)
+		t, _, n, ok := fr.FuncBoolMeaning(filValid, 0, nil, &opq)
 		c.CountPaths(n)
 		if !ok || n == 0 {
-			c.Unknown(nil, fname(c, filValid), "domain("+fld+")", P.Pos(filValid.Pos()), fmt.Sprintf("no path tests %s non-nil (paths=%d)", fld, n))
+			c.Unknown(nil, fname(c, filValid), "domain("+fld+")", P.Pos(filValid.Pos()), fmt.Sprintf("too many paths (paths=%d)", n))
 			continue
 		}
 		c.Check(t.Equal(an.Range(0, an.PosInf)), nil, fname(c, filValid), "domain("+fld+")", P.Pos(filValid.Pos()),
@@ -275,10 +276,23 @@ func checkCharset(c *core.Ctx, fn *ssa.Function, want an.Set, what string) {
 // under which an iteration completes (reaches a latch) must equal want.
 func checkLoopAccept(c *core.Ctx, fn *ssa.Function, subject string, want an.Set, what string) {
 	var def *ssa.BasicBlock
+	anchor := subject
 	for _, b := range fn.Blocks {
 		for _, in := range b.Instrs {
 			if v, ok := in.(ssa.Value); ok && an.PathOf(v) == subject && def == nil {
 				def = b
+			}
+		}
+	}
+	// the subject may only be computed inside a predicate helper the loop body calls
+	// (`if !validTag(tag, vals)`): the loop is then found through the ranged value itself
+	if i := strings.Index(subject, ")["); def == nil && i > 0 {
+		anchor = subject[:i+1]
+		for _, b := range fn.Blocks {
+			for _, in := range b.Instrs {
+				if v, ok := in.(ssa.Value); ok && an.PathOf(v) == anchor && def == nil {
+					def = b
+				}
 			}
 		}
 	}
@@ -295,7 +309,7 @@ func checkLoopAccept(c *core.Ctx, fn *ssa.Function, subject string, want an.Set,
 	acc := an.Empty()
 	n := 0
 	for _, l := range an.Latches(h) {
-		s, k, ok := fr.ReachEdge(fn, an.Edge{From: l, To: h}, an.DefinesPath(fn, subject), nil)
+		s, k, ok := fr.ReachEdge(fn, an.Edge{From: l, To: h}, an.DefinesPath(fn, anchor), nil)
 		if !ok {
 			c.Unknown(nil, fname(c, fn), "domain("+what+")", c.P.Pos(fn.Pos()), "too many paths")
 			return
@@ -874,27 +888,32 @@ func runValSlice(c *core.Ctx) {
 	}
 	// Filter: tag values by letter
 	letterVal := map[string]*ssa.Function{}
-	for _, ci := range calls(filValid) {
-		call, ok := ci.(*ssa.Call)
+	an.Region(filValid, func(g *ssa.Function) bool { return isAllQuantifier(g) }, func(o an.Occ) {
+		call, ok := o.In.(*ssa.Call)
 		if !ok || len(call.Call.Args) != 2 {
-			continue
+			return
 		}
 		callee := an.StaticCallee(&call.Call)
-		if callee == nil || !isAllQuantifier(callee) || an.PathOf(call.Call.Args[0]) != "rangeval(recv.Tags)" {
-			continue
+		if callee == nil || !isAllQuantifier(callee) || o.Path(call.Call.Args[0]) != "rangeval(recv.Tags)" {
+			return
 		}
-		for _, g := range an.Guards(filValid, call.Block()) {
+		host := call.Parent()
+		for _, g := range an.Guards(host, call.Block()) {
 			if b, ok := g.V.(*ssa.BinOp); ok && b.Op == token.EQL && g.True {
 				for _, side := range []ssa.Value{b.X, b.Y} {
 					if s, ok := an.ConstStr(side); ok {
 						letterVal[s] = funcValue(call.Call.Args[1])
-						okf, why := impliesFalse(c, filValid, call)
+						// a failing validator forces "invalid", through every helper level
+						okf, why := impliesFalse(c, host, call)
+						for i := len(o.Chain) - 1; i >= 0 && okf; i-- {
+							okf, why = impliesFalse(c, o.Chain[i].Parent(), o.Chain[i])
+						}
 						c.Check(okf, nil, fname(c, filValid), "tag["+s+"]/forced", P.Pos(call.Pos()), "#"+s+" values: validator false ⇒ invalid", why)
 					}
 				}
 			}
 		}
-	}
+	})
 	for _, row := range []struct{ letter, same string }{{"e", "ID"}, {"p", "Pubkey"}} {
 		fv := letterVal[row.letter]
 		c.Check(fv != nil && evVal[row.same] != nil && sameFunc(fv, evVal[row.same]), nil, fname(c, filValid), "tag["+row.letter+"]", P.Pos(filValid.Pos()),
